@@ -2,5 +2,13 @@ package props
 
 import "verifharness/kit"
 
-// c17swamp: swamp-level part of C17 (filled in by the lifecycle rig).
-func c17swamp(r *kit.Run) {}
+// c17swamp is part B of C17: swamp / hydra level waits (Destroy, automatic destroy, idle close, GracefulStop and the
+// requests that wait for them) under the controlled scheduler; oracle: every thread finishes.
+func c17swamp(r *kit.Run) {
+	bound := 1
+	if !r.Quick() {
+		bound = 2
+	}
+	c17cExplore(r, "C17") // part C first: it is cheap and targets the summon protocol
+	lcExplore(r, "C17", c17swampProgs(), bound)
+}
